@@ -173,7 +173,7 @@ def cancel_points(base_steps, sc, rng, limit):
 def stray_points(base_steps, sc, rng, limit):
     out = []
     nc, n = len(sc["pol"]), sc["n"]
-    kinds = ["Schedule", "Run", "Consts", "Validate", "MsgBad", "MsgEarly"]
+    kinds = ["Schedule", "Run", "Consts", "Validate", "MsgBad", "MsgEarly", "RunEarly"]
     pts = [(k, c, p, t) for k in range(len(base_steps) + 1) for c in range(1, nc + 1) for p in range(n) for t in kinds]
     if limit and len(pts) > limit:
         pts = rng.sample(pts, limit)
@@ -232,6 +232,12 @@ def scenarios(prop, tier, rng):
             ps = [S.policy(leader, "A", True, (consts or [True] * n)[p], True) for p in range(n)]
             if what == "prog":
                 ps[bad]["prog"] = "B"
+            elif what == "linebreak":
+                # leader and follower texts differ only in the position of one line break (different programs: a line
+                # comment swallows the rest of the expression in the follower's text)
+                for x in ps:
+                    x["prog"] = "An"
+                ps[bad]["prog"] = "Ac"
             elif what == "leader":
                 ps[bad]["leader"] = [x for x in range(n) if x not in (leader, bad)][0]
             elif what == "typed":
@@ -240,6 +246,7 @@ def scenarios(prop, tier, rng):
         out.append(("n2prog", scen(n=2, pol=pol(2, 0, 1, "prog"))))
         out.append(("n2progL1", scen(n=2, pol=pol(2, 1, 0, "prog", consts=[False, False]))))
         out.append(("n3prog", scen(n=3, pol=pol(3, 0, 2, "prog"))))
+        out.append(("n2linebreak", scen(n=2, pol=pol(2, 0, 1, "linebreak", consts=[False, False]))))
         out.append(("n3leader", scen(n=3, pol=pol(3, 0, 1, "leader"))))
         out.append(("n2typedF", scen(n=2, pol=pol(2, 0, 1, "typed"))))
         out.append(("n2typedL", scen(n=2, pol=pol(2, 0, 0, "typed"))))
@@ -247,6 +254,8 @@ def scenarios(prop, tier, rng):
             out.append(("n3leader2", scen(n=3, pol=pol(3, 2, 0, "leader", consts=[False, True, False]))))
             out.append(("n3typed", scen(n=3, pol=pol(3, 1, 2, "typed"))))
             out.append(("n3prog1", scen(n=3, pol=pol(3, 1, 0, "prog", consts=[False, False, False]))))
+            out.append(("n3linebreak", scen(n=3, pol=pol(3, 0, 2, "linebreak"))))
+            out.append(("n2linebreakL1", scen(n=2, pol=pol(2, 1, 0, "linebreak"))))
     elif prop == "C17":
         out.append(("n2f", scen(n=2, rpcfail=1)))
         out.append(("n2fno", scen(n=2, rpcfail=1, out=[False, True], leader=0)))
